@@ -161,6 +161,20 @@ def main():
                 discharged += k["checks"]
                 kani_checks += k["checks"]
         samples += k.get("samples", [])
+    # ---- bounded stand-ins: clauses no contract within reach decides (stated bound; never counted as proved) --------
+    for bc in cfg.get("bounded_checks", []):
+        found, note = R.SEARCHERS[bc["searcher"]](HERE, OUT)
+        if found:
+            payload = {"property": prop, "unit": "bounded:" + bc["name"], "obligation": found.get("clause", bc["clause"]),
+                       "verifier": "bounded exhaustive replay on the real crate (stand-in, not a proof): " + bc["bound"],
+                       "failing_input": found}
+            path = R._write(prop, OUT, payload)
+            violations.append({"line": f"VIOLATION property={prop} replay={path}", "payload": payload})
+        elif note and ("does not build" in note or "timeout" in note):
+            undecided.append(f"bounded={bc['name']} reason={note[:200]}")
+        else:
+            bounded.append({"harness": "replay::" + bc["name"], "fn": bc["clause"], "bound": bc["bound"], "tool": "exhaustive enumeration on the real crate",
+                            "checks": 1})
     # ---- floors (vacuity guard on obligation counts) ---------------------------------------
     floor = cfg.get("floor", {})
     if not violations and not undecided:
